@@ -227,6 +227,7 @@ package statebackend
 //@   ensures extends_the_head: result == nil && headExists && headNumber < (1<<64) - 1 ==> (*block).Number == headNumber + 1
 //@   ensures filter_with_the_batch: calls_FilterInsert == old(calls_FilterInsert)
 //@   ensures memory_follows_commit: calls_InsertWithBatch == old(calls_InsertWithBatch)
+//@   onlyprop memory_follows_commit C05
 //@ func (*deprecatedStateBackend).Store
 //@   props C05
 //@   arith int
@@ -249,3 +250,4 @@ package statebackend
 //@   ensures extends_the_head: result == nil && headExists && headNumber < (1<<64) - 1 ==> (*block).Number == headNumber + 1
 //@   ensures filter_with_the_batch: calls_FilterInsert == old(calls_FilterInsert)
 //@   ensures memory_follows_commit: calls_InsertWithBatch == old(calls_InsertWithBatch)
+//@   onlyprop memory_follows_commit C05
